@@ -12,6 +12,10 @@ func (p *Program) Source() string {
 		b.WriteString("def tr(id: Int, v: Int): Int\n  println(\"e${id}\")\n  v\nend\n")
 		b.WriteString("def tb(id: Int, v: Bool): Bool\n  println(\"e${id}\")\n  v\nend\n")
 	}
+	if p.UsesDeep {
+		// non-tail recursion with a few locals per frame, then the closure is called at the bottom
+		b.WriteString("def deep(n: Int, f: ||: Int): Int\n  a := n + 1\n  b := a * 2\n  if n <= 0\n    r := f()\n    return r\n  end\n  r := deep(n - 1, f)\n  (r + b) - b\nend\n")
+	}
 	for _, m := range p.Methods {
 		printStmt(&b, m, 0)
 	}
@@ -41,7 +45,11 @@ func printStmt(b *strings.Builder, n *N, d int) {
 		for _, p := range n.X {
 			ps = append(ps, p.S+": "+p.T.Elk())
 		}
-		fmt.Fprintf(b, "def %s(%s): Int\n", n.S, strings.Join(ps, ", "))
+		rt := "Int"
+		if n.T == TFn0 || n.T == TFn1 {
+			rt = "(" + n.T.Elk() + ")"
+		}
+		fmt.Fprintf(b, "def %s(%s): %s\n", n.S, strings.Join(ps, ", "), rt)
 		printBlock(b, n.B[0], d+1)
 		ind(b, d)
 		b.WriteString("end\n")
@@ -56,7 +64,7 @@ func printStmt(b *strings.Builder, n *N, d int) {
 	case "trace":
 		fmt.Fprintf(b, "println(\"t%d\")\n", n.I)
 	case "decl":
-		if n.T == TNInt || n.T == TLInt || n.C[0].K == "ifx" {
+		if n.T == TNInt || n.T == TLInt || n.T == TFn0 || n.T == TFn1 || n.C[0].K == "ifx" {
 			fmt.Fprintf(b, "var %s: %s = %s\n", n.S, n.T.Elk(), Expr(n.C[0]))
 		} else {
 			fmt.Fprintf(b, "%s := %s\n", n.S, Expr(n.C[0]))
